@@ -10,10 +10,17 @@
 (* full : the fully-indexed characteristic (identity CIDs are in the index)*)
 (* npad : number of zero bytes appended after the last section inside the  *)
 (*        payload ("null padding", readable with ZeroLengthSectionAsEOF)   *)
+(* hx   : (optional field, default 0) extra bytes of a NON-CANONICAL but   *)
+(*        accepted header encoding -- hx = 1: the version is written as    *)
+(*        the two-byte integer 0x18 0x01.  Every section sits hx bytes     *)
+(*        later than a re-encoding of the decoded header would suggest.    *)
 (***************************************************************************)
 EXTENDS CarBase
 
-SectionsLen(a) == PayloadLen(a.roots, a.secs)
+Hx(a)    == IF "hx" \in DOMAIN a THEN a.hx ELSE 0
+HLen(a)  == LET B == HeaderBodyLen(a.roots) + Hx(a) IN VarintLen(B) + B      \* the header as it is on disk
+Shift(a) == HLen(a) - HeaderLen(a.roots)
+SectionsLen(a) == PayloadLen(a.roots, a.secs) + Shift(a)
 PayLen(a)      == SectionsLen(a) + a.npad
 DataBase(a)    == IF a.ver = 1 THEN 0 ELSE DataOffsetOf(a.dpad)
 IdxOff(a)      == IF a.ver = 2 /\ a.idx # "none" THEN IndexOffsetOf(a.dpad, a.ipad, PayLen(a)) ELSE 0
@@ -22,13 +29,17 @@ IdxOff(a)      == IF a.ver = 2 /\ a.idx # "none" THEN IndexOffsetOf(a.dpad, a.ip
 Scan(a) ==
   [i \in 1..Len(a.secs) |->
      [b    |-> a.secs[i],
-      off  |-> SecOffset(a.roots, a.secs, i),                 \* payload-relative offset of the length prefix
-      src  |-> DataBase(a) + SecOffset(a.roots, a.secs, i),    \* offset in the source file/stream
-      doff |-> SecDataOffset(a.roots, a.secs, i),
+      off  |-> Shift(a) + SecOffset(a.roots, a.secs, i),                 \* payload-relative offset of the length prefix
+      src  |-> DataBase(a) + Shift(a) + SecOffset(a.roots, a.secs, i),    \* offset in the source file/stream
+      doff |-> Shift(a) + SecDataOffset(a.roots, a.secs, i),
       size |-> Blk[a.secs[i]].len]]
 
 (* The records of the embedded index *)
-EmbeddedRecs(a) == IndexRecs(a.roots, a.secs, a.full)
+(* index records / offsets of an archive, with the header as it is on disk *)
+IndexRecsA(a, storeIdent) ==
+  LET rs == IndexRecs(a.roots, a.secs, storeIdent) IN [i \in 1..Len(rs) |-> [rs[i] EXCEPT !.off = @ + Shift(a)]]
+IndexOffsetsA(a, storeIdent, mhPrecise, q) == { o + Shift(a) : o \in IndexOffsets(a.roots, a.secs, storeIdent, mhPrecise, q) }
+EmbeddedRecs(a) == IndexRecsA(a, a.full)
 
 ---------------------------------------------------------------------------
 (* C13: statistics of a full scan *)
